@@ -3,17 +3,19 @@ PROP = dict(
         props=["Hostd.Props.C15"],
         quick=dict(n=6400, len=40, shards=8, timeout=300),
         thorough=dict(n=96000, len=60, shards=16, timeout=1500),
-        nontrivial=r"^(race|unlock|cancel) .*rets=\[[^\]]*[aef]", min_ops=6, min_kinds=3,
+        nontrivial=r"^(race|unlock|cancel) .*rets=\[[^\]]*[aefs]", min_ops=6, min_kinds=3,
         shrink_budget=80,
         trusted_base=["Go scheduler, memory model and `select` semantics (the real goroutines are steered and observed, not enumerated); "
                       "sync.Mutex gives mutual exclusion of the locker's critical sections",
                       "goroutine states reported by runtime.Stack (used to decide that a caller is parked in the select of locker.Lock)",
-                      "the store lookups of Manager.Lock / LockV2Contract are answered by a harness stub (found / not found / not good for modification / renewed)",
+                      "the store lookups of Manager.Lock / LockV2Contract are answered by a harness stub (found / not found / not good for modification / renewed); the revision and cached sector roots the integrity checks see (consistent / root count mismatch / Merkle root mismatch) are set by the harness",
+                      "lock users are found by a syntactic go/parser scan (calls x.Lock(ctx, id) with two arguments, x.LockV2Contract(id)) of host/contracts, rhp/v2, rhp/v3, api; the rhp handlers are listed, not driven by this engine",
                       "model granularity: everything done under lr.mu is one atomic step (Model/Lock.lean transcribes lock.go by hand; structure facts are not regenerated)"],
         level_text="Lean theorems over the transition system of lock.go (heap of lock objects, map, per-caller program counters; steps lockFresh, lockWait, recv, cancelCommit, cancelFinish, unlock) for every reachable state, any number of callers and contracts: "
                    "entry present => holders+tokens=1 and n=holders+waiting+cancelling>=1, pointers kept across the unlocked window are never stale; corollaries mutual exclusion, Unlock never panics and its send never blocks, "
                    "admissions <= unlocks over any window, a waiter always has a holder or a token and is admitted right after the holder's Unlock, a cancelled waiter returns, all idle => map empty and the next Lock is immediate, Manager error paths release. "
-                   "Tie: the real locker (raw, via Manager.Lock and via LockV2Contract) is driven by 2-4 goroutines on 1-2 ids under a harness-controlled schedule (back-to-back cancel/unlock/lock bursts, GOMAXPROCS 1/2/4); "
+                   "Lock users (Manager.CheckIntegrity, V2CheckIntegrity): acquire, body, release on every return path are actions of the same system (userAfterAcquire; C15_user_releases_on_every_path, C15_user_no_leak); the table lockUsers is compared with a scan of the tree on every run (a new lock user is a mismatch). "
+                   "Tie: the real locker (raw, via Manager.Lock, via LockV2Contract, and inside CheckIntegrity / V2CheckIntegrity on contracts prepared for every return path, uncontended, queued behind a holder, cancelled while waiting; after every return len(locks) is compared with the contracts in use and the contract is re-locked: monitor no_leak/<method>/<path>) is driven by 2-4 goroutines on 1-2 ids under a harness-controlled schedule (back-to-back cancel/unlock/lock bursts, GOMAXPROCS 1/2/4); "
                    "every observed snapshot sequence must be a path of the Lean system (set-of-candidates replay) and the property clauses are monitored on the implementation's own observations",
         level_note="trusted: Lean kernel (+propext, Classical.choice, Quot.sound), Go runtime (scheduler, select, runtime.Stack), hand transcription of lock.go into Model/Lock.lean validated by the differential runs; liveness is proved as enabledness (no fairness assumption about which waiter receives the token)",
         assumptions=["callers follow the protocol: Unlock is called only by the caller whose Lock returned nil, once",
